@@ -35,8 +35,9 @@ ASSUMPTIONS = [
     "glyph budget at location x: 0.5 (new default rounded by _setCoordinates) + sum_t |scalar_t(x)| * (0.5 + 0.5*optimize) over the "
     "instance's own in-memory tuple list (scalars by an exact Fraction tent evaluator at HarfBuzz's normalised coordinates of the instance) "
     "+ 0.02 (float32) + half an F2Dot14 step x tent slope x max|delta| per surviving tuple (knots are stored as F2Dot14) + the measured movement "
-    "of the *original* under K F2Dot14 steps per axis (K=1 for pinned axes, 2 for restricted axes without avar, 3+ceil(steepest instance avar "
-    "segment/2) with avar: the two fonts quantise the normalised location independently); composites add their components' budgets scaled by the "
+    "of the *original* under K F2Dot14 steps per axis (K=1 for pinned axes, 2 for restricted axes without avar; with an avar map 2+ceil(slope/4) for pinned and "
+    "4+ceil(0.75*steepest instance segment + 0.25*steepest original segment) for restricted axes: stored knots are F2Dot14, HarfBuzz works in 16.16, and the two fonts "
+    "quantise the normalised location independently); composites add their components' budgets scaled by the "
     "component transform",
     "CFF2: rounding is per charstring operand (relative vectors), so outlines with identical operator sequences are compared operand by operand "
     "with the per-operand budget 0.5 + sum|scalar|*0.5 over the regions of the instanced VarStore; when the specializer changed the operator "
@@ -518,19 +519,25 @@ def run_case(case, ctx):
 
         try:
             inst = instancer.instantiateVariableFont(font, dict(lim), optimize=optimize, updateFontNames=True, downgradeCFF2=downgrade)
-        except ValueError as e:
-            frames = _tb.extract_tb(e.__traceback__)
-            if frames and frames[-1].filename.endswith("instancer/names.py"):
-                ctx.note("updateFontNames-rejected (STAT axis values missing)")
-                upd_names = False
-                font = corpus.open_bytes(info["bytes"])
-                _reset()
-            else:
-                with ctx.lib("instantiateVariableFont"):
-                    raise
         except NotImplementedError:
             ctx.skip("instancer documents this restriction as unsupported (NotImplementedError)")
             return
+        except Exception as e:
+            frames = _tb.extract_tb(e.__traceback__)
+            if isinstance(e, ValueError) and frames and frames[-1].filename.endswith("instancer/names.py"):
+                ctx.note("updateFontNames-rejected (STAT axis values missing)")
+            else:
+                # undocumented failure of updateFontNames: recorded as a violation, then the case goes on without it
+                from vmon.case import exc_mech
+
+                ctx.judged()
+                ctx.violation(exc_mech("instantiateVariableFont", e, option="updateFontNames"),
+                              "instantiateVariableFont(updateFontNames=True) raised %s: %s" % (type(e).__name__, str(e)[:200]),
+                              {"case": case["id"], "font": case.get("path"), "limits": {t: (list(v) if isinstance(v, tuple) else v) for t, v in lim.items()},
+                               "traceback": _tb.format_exception(type(e), e, e.__traceback__)[-8:]})
+            upd_names = False
+            font = corpus.open_bytes(info["bytes"])
+            _reset()
     if inst is None:
         with ctx.lib("instantiateVariableFont", expected=(NotImplementedError,),
                      skip_reason="instancer documents this restriction as unsupported (NotImplementedError)"):
@@ -585,11 +592,18 @@ def run_case(case, ctx):
         isegs = {t: dict(m) for t, m in ifont["avar"].segments.items()}
     steps = []
     for t, lo, df, hi in axes:
+        oseg = info["avar_segments"].get(t) or {}
+        has_map = len(oseg) > 3 or (isegs.get(t) and len(isegs[t]) > 3)
+        so_ = float(T.max_slope(sorted(oseg.items()))) if len(oseg) > 3 else 1.0
         if t in pinned:
-            steps.append(1)
-        elif info["avar_segments"].get(t) and len(info["avar_segments"][t]) > 3 or (isegs.get(t) and len(isegs[t]) > 3):
-            sl = T.max_slope(sorted(isegs.get(t, {}).items())) if isegs.get(t) else F(1)
-            steps.append(3 + int(math.ceil(float(sl) / 2)))
+            # library pin and HarfBuzz both land within half a step of the true mapped value; HarfBuzz adds its 16.16
+            # intermediate precision (a quarter step x slope + a quarter step) when an avar map is applied
+            steps.append(1 if not has_map else 2 + int(math.ceil(so_ / 4)))
+        elif has_map:
+            si_ = float(T.max_slope(sorted(isegs.get(t, {}).items()))) if isegs.get(t) else 1.0
+            # instance map: knots 0.5 + 0.5*slope', HarfBuzz 0.25*slope' + 0.25, final rounding 0.5; limit triple 1;
+            # original side 0.5 + 0.25*slope + 0.25
+            steps.append(4 + int(math.ceil(0.75 * si_ + 0.25 * so_)))
         else:
             steps.append(2)
     if info["avar2"]:
@@ -822,8 +836,9 @@ def _featvar_diagnosis(info, O, axes, pinned, eff, inst_bytes):
     """Label for a glyph-sequence difference (diagnosis only, the verdict is HarfBuzz's).  The label is given only
     when the known mechanism is positively identified in both fonts:
     (1) under the requested limits the original has a FeatureVariations record that becomes always-true (every
-        condition is on a pinned axis and met by the pin, or covers the whole new range) *after* a record that
-        stays conditional - the instancer must keep it as (or fold it into) the final fallback; and
+        condition is on a pinned axis and met by the pin, or covers the whole new range) next to a record that
+        stays conditional (before it: the always-true record must become the final fallback; after it: that record
+        is unreachable and no catch-all may follow); and
     (2) the instance's last record of the same table is condition-less and reinstates the original's *default*
         feature lookups (same number of lookups per substituted feature) - i.e. the old-default catch-all shadows
         the always-true record."""
@@ -838,7 +853,7 @@ def _featvar_diagnosis(info, O, axes, pinned, eff, inst_bytes):
         if tt not in font or not getattr(font[tt].table, "FeatureVariations", None):
             continue
         seen_conditional = False
-        pattern = None
+        pattern = always = None
         for rec in font[tt].table.FeatureVariations.FeatureVariationRecord:
             conds = rec.ConditionSet.ConditionTable if rec.ConditionSet else []
             status = "always"
@@ -854,10 +869,16 @@ def _featvar_diagnosis(info, O, axes, pinned, eff, inst_bytes):
                     status = "conditional"
             if status == "conditional":
                 seen_conditional = True
-            elif status == "always":
-                if seen_conditional and conds:
+                if always is not None:
+                    pattern = always        # a record that stays possible *after* the always-true one: unreachable in the
+                    break                   # original, but the instancer keeps it and appends the old-default catch-all
+            elif status == "always" and always is None:
+                if not conds:
+                    break                   # a genuinely condition-less record: not this mechanism
+                always = rec
+                if seen_conditional:
                     pattern = rec
-                break
+                    break
         if pattern is None:
             continue
         # (2) symptom in the instance
@@ -959,20 +980,15 @@ def _abs_sens(O, nO, steps, g, base_rec):
     return tot
 
 
-_nohvar = {}
-
-
 def _without_hvar(info):
-    """The original without its HVAR table (HarfBuzz then takes advances from gvar phantom points)."""
-    key = id(info)
-    if key not in _nohvar:
+    """The original without its HVAR/VVAR tables (HarfBuzz then takes advances from gvar phantom points)."""
+    if "_nohvar" not in info:
         f = corpus.open_bytes(info["bytes"])
         for t in ("HVAR", "VVAR"):
             if t in f:
                 del f[t]
-        _nohvar.clear()
-        _nohvar[key] = E.View(corpus.save_bytes(f))
-    return _nohvar[key]
+        info["_nohvar"] = E.View(corpus.save_bytes(f))
+    return info["_nohvar"]
 
 
 def _texts(rnd, ng):
@@ -1242,14 +1258,11 @@ def _depth(comps, g, d=0):
 
 
 def E_rec(glyphset, name):
+    """Decomposed pen record of a glyph drawn through fontTools' glyph set."""
     from vmon.oracle.hbft import RecPen
-
-    class P(RecPen):
-        def addComponent(self, *a, **k):
-            raise AssertionError("decomposing pen expected")
+    from fontTools.pens.basePen import DecomposingPen
 
     pen = RecPen()
-    from fontTools.pens.basePen import DecomposingPen
 
     class D(DecomposingPen):
         skipMissingComponents = False
@@ -1278,3 +1291,14 @@ def E_rec(glyphset, name):
 
     glyphset[name].draw(D(glyphset, pen))
     return pen.value
+
+
+def coverage_extra(results):
+    """largest differences actually observed (all inside their budgets when the run held)"""
+    mx = {}
+    for r in results:
+        w = (r.get("sample") or {}).get("worst_observed") or {}
+        for k, v in w.items():
+            if isinstance(v, (int, float)) and v == v and v != float("inf"):
+                mx[k] = max(mx.get(k, 0), v)
+    return {"observed_maxima": mx}
